@@ -74,13 +74,42 @@ int main(void) {
   ASSUME((d1x != 0 || d1y != 0) && (d2x != 0 || d2y != 0));          /* no repeated spine points (the reader drops nothing, but simple paths have none) */
   B(22); B(0xFB); U(layer); U(dtype); U(w); B(EXT); if ((EXT & 0x0C) == 0x0C) I(e0); if ((EXT & 0x03) == 0x03) I(e1);
   B(PLT); U(2); tok_put(PLT == 2 ? K_2D : K_GD, (uint64_t)(int64_t)d1x, (uint64_t)(int64_t)d1y); tok_put(PLT == 2 ? K_2D : K_GD, (uint64_t)(int64_t)d2x, (uint64_t)(int64_t)d2y); I(x); I(y);
+#elif ELEM == 9      /* names through tables: the second CELL record by reference number (13), TEXT by TEXTSTRING reference, PLACEMENT by CELLNAME reference; the tables
+                        follow the cells - with implicit numbering (records 3 / 5) or explicit numbers (4 / 6), variant TAB - and are resolved at END */
+  B(19); B(0x7B); U(0); U(layer); U(dtype); I(x); I(y);
+  B(17); B((uint8_t)(0xC0 | 0x30 | (RC << 1) | REFL)); U(1); I(x2); I(y2);
+  B(13); U(1);
+#if TAB == 0
+  B(3); STR1('Z'); B(3); STR1('D'); B(5); STR1('t');
+#else
+  B(4); STR1('D'); U(1); B(4); STR1('Z'); U(0); B(6); STR1('t'); U(0);       /* explicit numbers, given out of order */
+#endif
+#elif ELEM == 10     /* PLACEMENT with magnification and angle (record 18): info byte C N X Y R M A F; reals as typed tokens (type-7 doubles on replay) */
+  uint64_t mbits = nd_u64(); double mag = bc_i64_f(mbits), ang = (double)ANGV; uint64_t abits = (uint64_t)bc_f_i64(ang); ASSUME(mag == mag);      /* magnification: every double but NaNs; angle: the variant's value (the conversion to radians is one multiplication by a constant, no verdict in 600 s when symbolic) */
+  B(18); B((uint8_t)(0x80 | 0x30 | 0x06 | REFL)); STR1('D'); tok_put(K_REAL, mbits, 0); tok_put(K_REAL, abits, 0); I(x); I(y);
+  cell_by_name('D');
+#elif ELEM == 11     /* XYRELATIVE / XYABSOLUTE with TEXT and PLACEMENT: positions accumulate in relative mode; text string and placement cell re-used from the modal variables */
+  B(19); B(0x5B); STR1('t'); U(layer); U(dtype); I(x); I(y);
+  B(17); B(0xB0); STR1('D'); I(x); I(y);
+  B(16);                                   /* XYRELATIVE */
+  B(19); B(0x18); I(x2); I(y2);            /* text, textlayer, texttype from the modal variables; position += (x2, y2) */
+  B(17); B(0x30); I(x2); I(y2);            /* same placement cell; position += (x2, y2) */
+  B(15);                                   /* XYABSOLUTE */
+  B(19); B(0x18); I(x2); I(y2);
+  cell_by_name('D');
+#elif ELEM == 12     /* PROPERTY whose name is a PROPNAME reference (C = 1, N = 1) with four explicit values - signed integer, real (type 7), inline b-string,
+                        unsigned integer - and the PROPNAME table (implicit numbering) after the element */
+  uint64_t pv = nd_u64(), rb = nd_u64(); int64_t sv = (int64_t)nd_u64(); uint8_t bch = nd_u8(); ASSUME(sv != INT64_MIN);
+  B(20); B(0x7B); U(layer); U(dtype); U(w); U(h); I(x); I(y);
+  B(28); B(0x46); U(0); B(9); I(sv); B(7); tok_put(K_REALP, rb, 0); B(11); STR1(bch); B(8); U(pv);
+  B(7); STR1('p');
 #endif
   B(2);                /* END */
   uint8_t fname[2] = {'f', 0}; uint32_t err = 0; Lib lib = {0};
   READ_OAS(&lib, fname, 0.0, 0.0, &err);
   CHECK(err == 0 && vf_open_count == 0 && !tok_kind_error, "loads without error, token kinds as the specification prescribes, handle released");
   CHECK(tok_k == tok_n, "every token of the file was consumed");
-  CHECK(lib.f3.f1 == (ELEM == 3 ? 2 : 1), "cells");
+  CHECK(lib.f3.f1 == ((ELEM == 3 || ELEM == 9 || ELEM == 10 || ELEM == 11) ? 2 : 1), "cells");
   Cell* c = lib_cell(&lib, 0); CHECK(c->f0[0] == 'A' && c->f0[1] == 0, "cell name");
 #if ELEM == 0 || ELEM == 1
   CHECK(c->f1.f1 == (ELEM == 1 ? 2 : 1), "polygons");
@@ -101,6 +130,28 @@ int main(void) {
     CHECK(r->f0 == 0 && *(Cell**)&r->f1 == lib_cell(&lib, 1) && lib_cell(&lib, 1)->f0[0] == 'D', "placement by name resolved to the cell defined later");
     CHECK(VXD(r->f2) == (double)x && VYD(r->f2) == (double)y && r->f4 == 1.0 && (r->f5 & 1) == refl, "origin, unit magnification, reflection bit");
     CHECK(r->f3 == (RC == 0 ? 0.0 : RC == 1 ? 3.14159265358979323846 * 0.5 : RC == 2 ? 3.14159265358979323846 : 3.14159265358979323846 * 1.5), "rotation code: 0 / 90 / 180 / 270 degrees"); }
+#elif ELEM == 9
+  { CHECK(lib.f3.f1 == 2, "two cells"); Cell* d = lib_cell(&lib, 1);
+    CHECK(d->f0 && d->f0[0] == 'D' && d->f0[1] == 0, "second cell named through the CELLNAME table");
+    CHECK(c->f5.f1 == 1 && c->f2.f1 == 1, "one label, one reference");
+    Label* l = ((Label**)c->f5.f2)[0]; CHECK(l->f1 && l->f1[0] == 't' && l->f1[1] == 0 && l->f0 == TAG(layer, dtype) && VXD(l->f2) == (double)x && VYD(l->f2) == (double)y, "label text through the TEXTSTRING table; tag and position");
+    Ref* r = ((Ref**)c->f2.f2)[0]; CHECK(r->f0 == 0 && *(Cell**)&r->f1 == d, "placement by reference number resolved to the cell with that CELLNAME number");
+    CHECK(VXD(r->f2) == (double)x2 && VYD(r->f2) == (double)y2 && (r->f5 & 1) == REFL, "origin, reflection"); }
+#elif ELEM == 10
+  { CHECK(c->f2.f1 == 1, "one reference"); Ref* r = ((Ref**)c->f2.f2)[0];
+    CHECK(r->f0 == 0 && *(Cell**)&r->f1 == lib_cell(&lib, 1), "resolved to the cell defined later");
+    CHECK(bc_f_i64(r->f4) == bc_f_i64(mag), "magnification: the real as given");
+    CHECK(bc_f_i64(r->f3) == bc_f_i64(ang * (3.14159265358979323846 / 180.0)), "rotation: the angle in degrees, converted to radians");
+    CHECK(VXD(r->f2) == (double)x && VYD(r->f2) == (double)y && (r->f5 & 1) == REFL, "origin, reflection"); }
+#elif ELEM == 11
+  { CHECK(c->f5.f1 == 3 && c->f2.f1 == 2, "three labels, two references");
+    Label* l0 = ((Label**)c->f5.f2)[0]; Label* l1 = ((Label**)c->f5.f2)[1]; Label* l2 = ((Label**)c->f5.f2)[2]; Ref* r0 = ((Ref**)c->f2.f2)[0]; Ref* r1 = ((Ref**)c->f2.f2)[1];
+    CHECK(VXD(l0->f2) == (double)x && VYD(l0->f2) == (double)y && VXD(r0->f2) == (double)x && VYD(r0->f2) == (double)y, "absolute positions");
+    CHECK(VXD(l1->f2) == (double)x + (double)x2 && VYD(l1->f2) == (double)y + (double)y2, "relative mode: text position accumulates");
+    CHECK(VXD(r1->f2) == (double)x + (double)x2 && VYD(r1->f2) == (double)y + (double)y2, "relative mode: placement position accumulates (its own modal variable)");
+    CHECK(VXD(l2->f2) == (double)x2 && VYD(l2->f2) == (double)y2, "absolute mode again: the value itself");
+    CHECK(l1->f1 && l1->f1[0] == 't' && l1->f1 != l0->f1 && l1->f0 == TAG(layer, dtype) && l2->f1 && l2->f1[0] == 't', "text string, textlayer and texttype re-used from the modal variables (own copy of the string)");
+    CHECK(r1->f0 == 0 && *(Cell**)&r1->f1 == lib_cell(&lib, 1) && *(Cell**)&r0->f1 == lib_cell(&lib, 1), "placement cell re-used from the modal variable; both resolved"); }
 #elif ELEM == 8
   { CHECK(c->f3.f1 == 1 && c->f1.f1 == 0, "one path, no polygon"); FPath* p = ((FPath**)c->f3.f2)[0]; struct S_struct_gdstk__FlexPathElement* el = p->f1;
     CHECK(p->f2 == 1 && el->f0 == TAG(layer, dtype) && (p->f3 & 1), "one element with the 32-bit layer and datatype; a simple path");
@@ -114,6 +165,13 @@ int main(void) {
     if (xs == 0.0 && xe == 0.0) CHECK(el->f5 == 0 || (el->f5 == 3 && VXD(el->f6) == 0.0 && VYD(el->f6) == 0.0), "both ends flush");
     else if (xs == (double)w && xe == (double)w) CHECK(el->f5 == 2 || (el->f5 == 3 && VXD(el->f6) == xs && VYD(el->f6) == xe), "both ends extended by the half-width");
     else CHECK(el->f5 == 3 && VXD(el->f6) == xs && VYD(el->f6) == xe, "ends extended by exactly the denoted lengths"); }
+#elif ELEM == 12
+  { CHECK(c->f1.f1 == 1, "one polygon"); Poly* p = ((Poly**)c->f1.f2)[0]; struct S_struct_gdstk__Property* pr = p->f3;
+    CHECK(pr && pr->f2 == 0 && pr->f0 && pr->f0[0] == 'p' && pr->f0[1] == 0, "one property, named through the PROPNAME table");
+    if (pr) { struct S_struct_gdstk__PropertyValue* v0 = pr->f1; CHECK(v0 && v0->f0 == 1 && (int64_t)PV_U64(v0) == sv, "signed integer value");
+      struct S_struct_gdstk__PropertyValue* v1 = v0 ? v0->f2 : 0; CHECK(v1 && v1->f0 == 2 && PV_U64(v1) == rb, "real value, bit for bit");
+      struct S_struct_gdstk__PropertyValue* v2 = v1 ? v1->f2 : 0; CHECK(v2 && v2->f0 == 3 && PV_U64(v2) == 1 && PV_BYTES(v2)[0] == bch, "inline string value: its byte, whatever it is");
+      struct S_struct_gdstk__PropertyValue* v3 = v2 ? v2->f2 : 0; CHECK(v3 && v3->f0 == 0 && PV_U64(v3) == pv && v3->f2 == 0, "unsigned integer value; four values in file order"); } }
 #elif ELEM == 7
   { CHECK(c->f1.f1 == 1, "one polygon"); Poly* p = ((Poly**)c->f1.f2)[0];
     struct S_struct_gdstk__Property* pr = p->f3; int np = 0;
